@@ -201,6 +201,7 @@ type verifStorage struct {
 
 	// single-fault injection (C10): at most one storage call fails per run
 	faultsOn bool
+	nfaults  int
 	faulted  string
 	faultErr error
 
@@ -241,11 +242,14 @@ var errVerifStorage = errors.New("storage: backend failure")
 // fault decides whether this storage call fails (at most one per run).
 func (s *verifStorage) fault(name string) error {
 	s.journal = append(s.journal, name)
-	if !s.faultsOn || s.faulted != "" {
+	if !s.faultsOn || s.nfaults >= 1+nd.Param("extrafaults", 0) {
 		return nil
 	}
 	if nd.Bool("fault." + name) {
-		s.faulted = name
+		s.nfaults++
+		if s.faulted == "" {
+			s.faulted = name
+		}
 		switch nd.Choice("faultkind", 3) {
 		case 0:
 			s.faultErr = errVerifStorage
